@@ -322,7 +322,6 @@ bool Instance::configure_tx_txin() {
     auto& wstack = tx->vin[txin_index].scriptWitness.stack;
     auto& scriptSig = tx->vin[txin_index].scriptSig;
     CScript scriptPubKey = txin->vout[txin_vout_index].scriptPubKey;
-    std::vector<const char*> push_del;
     btc_segwit_logf("got witness stack of size %zu\n", wstack.size());
     if (wstack.size() > 0) {
         // segwit
@@ -563,9 +562,9 @@ bool Instance::configure_tx_txin() {
             fprintf(stderr, "invalid script (witness stack last element)\n");
             return false;
         }
-        // put remainder on to-be-parsed stack
+        // put remainder on the stack, as is
         for (size_t i = 0; i < wstack_to_stack; i++) {
-            push_del.push_back(strdup(HexStr(wstack[i]).c_str())); // TODO: use as is rather than hexing and dehexing
+            stack.push_back(wstack[i]);
         }
     } else {
         // legacy
@@ -574,11 +573,6 @@ bool Instance::configure_tx_txin() {
         successor_script = scriptPubKey;
     }
 
-    parse_stack_args(push_del);
-    while (!push_del.empty()) {
-        delete push_del.back();
-        push_del.pop_back();
-    }
 
     // // extract pubkeys from script
     // CScript::const_iterator it = script.begin();
